@@ -34,17 +34,17 @@ TABLE = {
             "4/C14"),
     'C01': ('translation_validation',
             'verified validator (accepts_b: sound, no false rejection) + per-instance kernel-checked certificates over a frozen pool of fragment-F definitions; partial',
-            "PARTIAL: the learner's universal correctness is not proved (it is a heuristic). Proved in Coq: the validator's meaning (accepts_b_spec), invariance of the canonical form under job-graph isomorphism (no job isomorphic to a run is ever rejected), topological order of every run, and that ingestion drops no observed successor/predecessor set (ingest_evidence). Established per run: for every definition of the slice (thorough: all 1200 pool definitions; complete execution set and a seeded proper subset) the real pv_to_puml_string terminates within the limit, its text parses (parse_sound), and coqc certifies that every input job is accepted by the emitted diagram.",
+            "PARTIAL: the learner's universal correctness is not proved (it is a heuristic). Proved in Coq: the validator's meaning (accepts_b_spec), invariance of the canonical form under job-graph isomorphism (no job isomorphic to a run is ever rejected), topological order of every run, and that ingestion drops no observed successor/predecessor set (ingest_evidence). Established per run: for every definition of the slice (thorough: all 1200 pool definitions; plus, in every run, the 63 definitions of the repository's end-to-end corpus read with the harness' own parser; complete execution set and a seeded proper subset) the real pv_to_puml_string terminates within the limit, its text parses (parse_sound), and coqc certifies that every input job is accepted by the emitted diagram.",
             'Trusted: Coq kernel+vm_compute; the executable semantics V.Puml.Exec (definition of diagram meaning); `canon` equality is coarser than isomorphism (a wrong acceptance is possible, a wrong rejection is not: accepts_iso); python line tokenizer; janus shim; frozen pool harness/pool/F.jsonl (every member certified inF_b on every run). Genuine learner failures inside the pool are listed in known_findings.json by definition id; any other failure is a VIOLATION.',
             '4/C01'),
     'C02': ('translation_validation',
             'verified bounded language inclusion (incl_b) + per-instance certificates over the frozen pool; partial',
-            "PARTIAL: per definition of the slice the complete execution set (loops once and twice) is learned from and coqc certifies that every run of the emitted diagram with loops bounded at 2 is accepted by the source definition (loop bound on the source side deepened up to 3; enumerations above 4000 runs are reported undecided, not passed off as checked). Proved: incl_b_spec / not_included_spec; canon_not_complete documents the validator's incompleteness.",
+            "PARTIAL: per definition of the slice (pool slice + the 63 corpus definitions) the complete execution set (loops once and twice) is learned from and coqc certifies that every run of the emitted diagram with loops bounded at 2 is accepted by the source definition (loop bound on the source side deepened up to 3; enumerations above 4000 runs are reported undecided, not passed off as checked). Proved: incl_b_spec / not_included_spec; canon_not_complete documents the validator's incompleteness.",
             'Trusted: Coq kernel+vm_compute; the executable semantics V.Puml.Exec (definition of diagram meaning); `canon` equality is coarser than isomorphism (a wrong acceptance is possible, a wrong rejection is not: accepts_iso); python line tokenizer; janus shim; frozen pool harness/pool/F.jsonl (every member certified inF_b on every run). Genuine learner failures inside the pool are listed in known_findings.json by definition id; any other failure is a VIOLATION.',
             '4/C02'),
     'C03': ('translation_validation',
             'Coq proofs that ingestion depends only on the set of job graphs up to isomorphism + per-instance two-way language equivalence across presentation/hash-seed variants; partial',
-            "Proved outright (unbounded): ingestion is invariant under job permutation (ingest_perm), duplication (ingest_dup/ingest_idem) and renumbering of the events of a job (ingest_iso; ids, job ids and timestamps are not part of the model's input at all). PARTIAL for the schedule-dependent rest: for each definition of the slice 6 (thorough 8) presentations - permuted jobs/events, renamed ids + shifted times, a job supplied twice, five PYTHONHASHSEED values in separate processes with distinct uuid streams - must all succeed or all fail alike and be two-way language-equivalent to the baseline (certified in coqc).",
+            "Proved outright (unbounded): ingestion is invariant under job permutation (ingest_perm), duplication (ingest_dup/ingest_idem) and renumbering of the events of a job (ingest_iso; ids, job ids and timestamps are not part of the model's input at all). PARTIAL for the schedule-dependent rest: for each definition of the slice (pool F slice + 63 corpus definitions + frozen pools R and B of corpus-like shapes just outside F) 6 (thorough 8) presentations - permuted jobs/events, renamed ids + shifted times, a job supplied twice, five PYTHONHASHSEED values in separate processes with distinct uuid streams - must all succeed or all fail alike and be two-way language-equivalent to the baseline (certified in coqc).",
             'Trusted: Coq kernel+vm_compute; the executable semantics V.Puml.Exec (definition of diagram meaning); `canon` equality is coarser than isomorphism (a wrong acceptance is possible, a wrong rejection is not: accepts_iso); python line tokenizer; janus shim; frozen pool harness/pool/F.jsonl (every member certified inF_b on every run). Genuine learner failures inside the pool are listed in known_findings.json by definition id; any other failure is a VIOLATION.',
             '4/C03'),
     'C04': ('proof',
@@ -54,7 +54,7 @@ TABLE = {
             '4/C04'),
     'C05': ('translation_validation',
             'verified parser for the emitted dialect (parse_sound/parse_print: a successful parse IS grammar membership) + per-instance certificates over the frozen pool; partial',
-            'PARTIAL: per emitted text coqc certifies parse = Some(name, d) with the requested group name, wf d, and event set equal to the observed event types; the harness additionally rejects placeholder names. Proved: parse_sound, parse_print, print_inj, events_preserved, lex_render. Universe: pool slice plus the multi-start family (first event removed in front of an AND/OR fork) and loops ending in a fork (members of the pool).',
+            'PARTIAL: per emitted text coqc certifies parse = Some(name, d) with the requested group name, wf d, and event set equal to the observed event types; the harness additionally rejects placeholder names. Proved: parse_sound, parse_print, print_inj, events_preserved, lex_render. Universe: pool slice, the 63 corpus definitions, the multi-start family (first event removed in front of an AND/OR fork) and loops ending in a fork (members of the pool).',
             'Trusted: Coq kernel+vm_compute; the executable semantics V.Puml.Exec (definition of diagram meaning); `canon` equality is coarser than isomorphism (a wrong acceptance is possible, a wrong rejection is not: accepts_iso); python line tokenizer; janus shim; frozen pool harness/pool/F.jsonl (every member certified inF_b on every run). Genuine learner failures inside the pool are listed in known_findings.json by definition id; any other failure is a VIOLATION.',
             '4/C05'),
     'C06': ('translation_validation',
@@ -64,7 +64,7 @@ TABLE = {
             '4/C06'),
     'C07': ('translation_validation',
             'verified graph validators (reachability, acyclicity, single entry, nesting check c07_b sound and complete) + per-instance certificates on the real detect_loops output; partial',
-            'PARTIAL: for the loop-bearing definitions of the pool slice the directly-follows graph is built exactly as pv_to_puml_string does, the real detect_loops is called, and coqc certifies for the returned nesting: every level acyclic and single-entry, every observed event type exactly once in the whole nesting, every edge of the input lying on a cycle enclosed in some loop body. Proved: reach_b_iff, acyclic_b_iff, single_entry_b_iff, c07_b_sound/complete, existence of a topological order for every certified level. detect_loops itself is not modelled.',
+            'PARTIAL: for the loop-bearing definitions of the pool slice, the corpus' loop cases and a frozen pool L of corpus-like loop shapes (break branches containing loops/forks, two loops after one event) the directly-follows graph is built exactly as pv_to_puml_string does, the real detect_loops is called, and coqc certifies for the returned nesting: every level acyclic and single-entry, every observed event type exactly once in the whole nesting, every edge of the input lying on a cycle enclosed in some loop body. Proved: reach_b_iff, acyclic_b_iff, single_entry_b_iff, c07_b_sound/complete, existence of a topological order for every certified level. detect_loops itself is not modelled.',
             'Trusted: Coq kernel+vm_compute; the executable semantics V.Puml.Exec (definition of diagram meaning); `canon` equality is coarser than isomorphism (a wrong acceptance is possible, a wrong rejection is not: accepts_iso); python line tokenizer; janus shim; frozen pool harness/pool/F.jsonl (every member certified inF_b on every run). Genuine learner failures inside the pool are listed in known_findings.json by definition id; any other failure is a VIOLATION.',
             '4/C07'),
     "C15": ("proof",
